@@ -25,6 +25,9 @@ type HarnessSpec struct {
 	Lemma    string   `json:"lemma,omitempty"`
 	MaxPaths int      `json:"max_paths,omitempty"`
 	MaxSecs  float64  `json:"max_secs,omitempty"`
+	// budgets of the thorough tier, when they differ
+	ThoroughMaxPaths int     `json:"thorough_max_paths,omitempty"`
+	ThoroughMaxSecs  float64 `json:"thorough_max_secs,omitempty"`
 	Loop     int      `json:"loop,omitempty"`
 }
 
@@ -314,6 +317,12 @@ func cmdCheck(args []string) int {
 		eng.maxSecs = 900
 		if h.MaxSecs > 0 {
 			eng.maxSecs = h.MaxSecs
+		}
+		if eng.thorough && h.ThoroughMaxPaths > 0 {
+			eng.maxPaths = h.ThoroughMaxPaths
+		}
+		if eng.thorough && h.ThoroughMaxSecs > 0 {
+			eng.maxSecs = h.ThoroughMaxSecs
 		}
 		eng.loopBound = 128
 		if h.Loop > 0 {
